@@ -332,7 +332,7 @@ class World:
         return d
     def bag_key(self, ename, raw):
         return ref_reduce(raw) if self.pk_cols(ename) > 1 else raw[0]
-    def expected_bag(self, given):
+    def expected_bag(self, given, ro=None):
         """given: list of (ename, raw).  Every given object: all non-lazy attributes incl. collections; objects related to a
         given object (one level): their non-collection attributes; relationship values as keys."""
         res = {}
@@ -347,6 +347,7 @@ class World:
         related = {}      # (entity, raw) -> [(given entity, given raw, attribute, through a collection?)]
         for ename, raw in given:
             res.setdefault(ename, {})[self.bag_key(ename, raw)] = cell(ename, raw, True)
+            if ro is not None and not ro[ename]: continue       # bag.config(entity, related_objects=False): keys only, no related entries
             for n in self.attr_names(ename, with_collections=True):
                 v = self.value(ename, raw, n)
                 if v[0] == 'one' and v[2] is not None: related.setdefault((v[1], tuple(v[2])), []).append((ename, raw, n, False))
@@ -428,6 +429,8 @@ def classify_bag_diff(w, given, related, got, exp):
                     out.append(('bag:wrong-cell:%s.%s' % (ename, n), ename, k, n))
     return out
 
+walk_queue = []
+
 def check_bag(ctx, w, rng, log, decode_queue):
     objs = [(en, raw) for en in 'ABMD' for raw in sorted(w.S[en], key=repr)]
     if not objs: return
@@ -435,18 +438,41 @@ def check_bag(ctx, w, rng, log, decode_queue):
         given = rng.sample(objs, rng.randint(1, min(4, len(objs))))
         real_objs = [w.obj(en, raw) for en, raw in given]
         via = rng.choice(['to_dict', 'Bag', 'to_json'])
+        ro = None
         try:
             if via == 'to_dict': got = serialization.to_dict(real_objs if len(real_objs) > 1 or rng.random() < 0.5 else real_objs[0])
             elif via == 'Bag':
                 bag = Bag(w.db)
+                ro = {en: rng.random() < 0.7 for en in 'ABMD'}
+                for en in 'ABMD':
+                    if not ro[en] or rng.random() < 0.3: bag.config(w.E[en], related_objects=ro[en])
                 for o in real_objs: bag.put(o)
                 got = dict(bag.to_dict())
             else: got = json.loads(serialization.to_json(real_objs))
             got = {k: dict(v) for k, v in got.items()}
         except Exception as e:
             got = 'raised ' + type(e).__name__
-        exp, related = w.expected_bag(given)
+        exp, related = w.expected_bag(given, ro)
         if via == 'to_json': exp = jsonable(exp)
+        if isinstance(got, dict) and len(walk_queue) < 3000:
+            # the traversal model (Lean bagWalk) on the same object graph: which objects appear, and with a full or a reduced entry
+            idx = {o: i for i, o in enumerate(objs)}
+            rel = []
+            for en, raw in objs:
+                r = []
+                for n in w.attr_names(en, with_collections=True):
+                    v = w.value(en, raw, n)
+                    if v[0] == 'one' and v[2] is not None: r.append(idx[(v[1], tuple(v[2]))])
+                    elif v[0] == 'many': r += [idx[(v[1], tuple(x))] for x in v[2]]
+                rel.append(r)
+            real = []
+            for (en, raw), i in idx.items():
+                d = {str(k): v for k, v in got.get(en, {}).items()}.get(str(w.bag_key(en, raw)))
+                if d is None: continue
+                colls = [a.name for a in w.E[en]._attrs_ if a.is_collection]
+                real.append([i, (all(c in d for c in colls) if colls else None)])
+            walk_queue.append(({'op': 'bagwalk', 'rel': rel, 'ro': [ro[en] if ro else True for en, _ in objs], 'given': [idx[g] for g in given]},
+                               sorted(real), [[en, list(r)] for en, r in objs], via))
         ctx.case(['bag', via, w.cfg, [[en, list(r)] for en, r in given], len(log)], kind='oracle:bag-' + via)
         if isinstance(got, dict) and via != 'to_json':
             for en, d in got.items():
@@ -647,6 +673,19 @@ def state_oracle(ctx):
             check_bag(ctx, w, rng, log, decode_queue)
         check_pickle(ctx, w, rng, log)
         w.db.disconnect()
+    if ctx.driver.ok and walk_queue:
+        outs = ctx.driver('C31', [q[0] for q in walk_queue])
+        for (req, real, objs, via), o in zip(walk_queue, outs):
+            ctx.case(['bagwalk', req], kind='tie:bag-traversal', nontrivial=len(req['given']) > 1)
+            model = {i: f for i, f in o.get('ok', [])} if isinstance(o.get('ok'), list) else None
+            realm = {i: f for i, f in real}
+            ok = model is not None and set(model) == set(realm) and all(realm[i] is None or realm[i] == model[i] for i in realm)
+            if any(not v for v in req['ro']): ctx.count('tie:bag-traversal:related_objects=False')
+            if model and any(f is False for f in model.values()): ctx.count('tie:bag-traversal:reduced-entries')
+            if not ok:
+                ctx.divergence('model bagWalk and the real Bag.to_dict disagree on which objects appear / with a full or reduced entry',
+                               {'objects': objs, 'request': req, 'via': via}, model=o, impl=real)
+    del walk_queue[:]
     # composite keys emitted by the real Bag.to_dict, decoded by the Lean decoder: must be a key of the right arity
     if ctx.driver.ok and decode_queue:
         outs = ctx.driver('C31', [{'op': 'decode', 's': k} for k, _ in decode_queue])
